@@ -1215,3 +1215,175 @@ Section DiskFacts.
       + subst m. split; auto.
   Qed.
 End DiskFacts.
+
+(* ================================================================== HybridCache refines the scored entry list *)
+Section HybridRefines.
+  Variable A : arith.
+  Variables aw dw : num A.
+  Variable mx : nat.
+  Hypothesis Hmx : 1 <= mx.
+
+  Notation hstep := (hyb_step A aw dw mx true).
+  Notation sstep := (hyb_spec_step A aw dw mx).
+  Notation ent := (entry A).
+
+  Section Proj.
+    Context {V : Type}.
+    Variable g : ent -> V.
+    Definition proj (l : list ent) : list (nat * V) := map (fun e => (e_key e, g e)) l.
+
+    Lemma keys_proj : forall l, map fst (proj l) = map e_key l.
+    Proof. intros l. unfold proj. rewrite map_map. reflexivity. Qed.
+
+    Lemma aget_proj : forall k l, aget k (proj l) = option_map g (e_find A k l).
+    Proof.
+      intros k l. unfold proj, e_find. induction l as [|x t IH]; cbn; auto.
+      rewrite (Nat.eqb_sym k (e_key x)). destruct (Nat.eqb (e_key x) k); auto.
+    Qed.
+
+    Lemma aset_proj : forall r l, aset (e_key r) (g r) (proj l) = proj (upsert A r l).
+    Proof.
+      intros r l. unfold proj. induction l as [|x t IH]; cbn; auto.
+      rewrite (Nat.eqb_sym (e_key r) (e_key x)). destruct (Nat.eqb (e_key x) (e_key r)); cbn; congruence.
+    Qed.
+
+    Lemma proj_upsert_same : forall r r0 l,
+      e_find A (e_key r) l = Some r0 -> g r = g r0 -> proj (upsert A r l) = proj l.
+    Proof.
+      intros r r0 l. unfold proj, e_find. induction l as [|x t IH]; cbn; [discriminate|].
+      destruct (Nat.eqb (e_key x) (e_key r)) eqn:E; cbn.
+      - apply Nat.eqb_eq in E. intros H Hg. inversion H; subst. now rewrite E, Hg.
+      - intros H Hg. f_equal. auto.
+    Qed.
+
+    Lemma e_without_notin : forall k l, ~ In k (map e_key l) -> e_without A k l = l.
+    Proof.
+      intros k l. unfold e_without. induction l as [|x t IH]; cbn; auto. intros N.
+      destruct (Nat.eqb (e_key x) k) eqn:E; cbn.
+      - apply Nat.eqb_eq in E. exfalso. auto.
+      - f_equal. auto.
+    Qed.
+
+    Lemma adel_proj : forall k l, NoDup (map e_key l) -> adel k (proj l) = proj (e_without A k l).
+    Proof.
+      intros k l ND. unfold proj. induction l as [|x t IH]; cbn; auto.
+      inversion ND as [|? ? NI ND']; subst.
+      rewrite (Nat.eqb_sym k (e_key x)). destruct (Nat.eqb (e_key x) k) eqn:E; cbn.
+      - apply Nat.eqb_eq in E. subst k. fold (e_without A (e_key x) t). now rewrite e_without_notin.
+      - f_equal. fold (e_without A k t). auto.
+    Qed.
+  End Proj.
+
+  Lemma e_find_key : forall k l r, e_find A k l = Some r -> e_key r = k /\ In r l.
+  Proof.
+    intros k l r H. unfold e_find in H. apply find_some in H. destruct H as [H1 H2].
+    apply Nat.eqb_eq in H2. auto.
+  Qed.
+
+  Lemma e_find_In : forall l e, NoDup (map e_key l) -> In e l -> e_find A (e_key e) l = Some e.
+  Proof.
+    intros l e ND. unfold e_find. induction l as [|x t IH]; cbn; [tauto|].
+    inversion ND as [|? ? NI ND']; subst. intros [H|H].
+    - subst. now rewrite Nat.eqb_refl.
+    - destruct (Nat.eqb (e_key x) (e_key e)) eqn:E; auto. apply Nat.eqb_eq in E.
+      exfalso. apply NI. rewrite E. now apply in_map.
+  Qed.
+
+  Lemma keys_e_without : forall k l,
+    map e_key (e_without A k l) = filter (fun x => negb (x =? k)) (map e_key l).
+  Proof.
+    intros k l. unfold e_without. induction l as [|x t IH]; cbn; auto.
+    destruct (Nat.eqb (e_key x) k); cbn; congruence.
+  Qed.
+
+  Lemma argmin_lowest : forall (sc : ent -> num A) t b,
+    argmin A (e_key b, sc b) (map (fun e => (e_key e, sc e)) t) = e_key (lowest A sc b t).
+  Proof.
+    intros sc t. induction t as [|x r IH]; intros b; cbn; auto.
+    destruct (nltb A (sc x) (sc b)); auto.
+  Qed.
+
+  Definition hyb_rel (st : hyb A) (l : list ent) : Prop :=
+    h_dict st = proj e_val l /\ h_cnt st = proj e_cnt l /\ h_dur st = proj e_dur l /\ NoDup (map e_key l).
+
+  Lemma hyb_rel_scores : forall st l, hyb_rel st l ->
+    score_list A aw dw st = map (fun e => (e_key e, score A aw dw l e)) l.
+  Proof.
+    intros st l (Ed & Ec & Eu & ND). unfold score_list. rewrite Ec. unfold proj at 1. rewrite map_map.
+    apply map_ext_in. intros e He. cbn [fst snd]. f_equal. unfold score_of, score. cbn [fst snd].
+    assert (T1 : tot_c A st = total_cnt A l).
+    { unfold tot_c, total_cnt. rewrite Ec. unfold proj. now rewrite map_map. }
+    assert (T2 : tot_d A st = total_dur A l).
+    { unfold tot_d, total_dur. rewrite Eu. unfold proj. now rewrite map_map. }
+    rewrite Eu, aget_proj, (e_find_In l e ND He). cbn. unfold ncount, ndur. now rewrite T1, T2.
+  Qed.
+
+  Lemma hyb_rel_victim : forall st b t, hyb_rel st (b :: t) ->
+    victim A aw dw st = e_key (lowest A (score A aw dw (b :: t)) b t).
+  Proof.
+    intros st b t HR. unfold victim. rewrite (hyb_rel_scores st _ HR). cbn [map]. apply argmin_lowest.
+  Qed.
+
+  Lemma hyb_rel_upsert : forall st l r, hyb_rel st l ->
+    hyb_rel (mkHyb (aset (e_key r) (e_val r) (h_dict st)) (aset (e_key r) (e_cnt r) (h_cnt st))
+                   (aset (e_key r) (e_dur r) (h_dur st))) (upsert A r l).
+  Proof.
+    intros st l r (Ed & Ec & Eu & ND). unfold hyb_rel; cbn. rewrite Ed, Ec, Eu, !aset_proj.
+    repeat split; auto.
+    rewrite <- (keys_proj e_val), <- aset_proj, keys_aset, keys_proj.
+    destruct (amem (e_key r) (proj e_val l)) eqn:E; auto.
+    apply NoDup_snoc; auto. apply amem_false_In in E. now rewrite keys_proj in E.
+  Qed.
+
+  Lemma hyb_step_refines : forall st l o, hyb_inv A mx st -> hyb_rel st l ->
+    snd (hstep st o) = snd (sstep l o) /\ hyb_rel (fst (hstep st o)) (fst (sstep l o)).
+  Proof.
+    intros st l o Hinv HR. pose proof HR as (Ed & Ec & Eu & ND).
+    assert (LEN : length (h_dict st) = length l) by (rewrite Ed; unfold proj; apply map_length).
+    destruct o as [k v d|k|k| |]; cbn [hyb_step hyb_spec_step fst snd].
+    - (* put *)
+      unfold hyb_put. rewrite LEN. destruct (mx <=? length l) eqn:Efull.
+      + apply Nat.leb_le in Efull.
+        assert (NE : h_dict st <> []) by (intros H; rewrite H in LEN; cbn in LEN; lia).
+        rewrite (hyb_expire_eq A aw dw mx Hmx st Hinv NE). cbn [fst snd]. split; auto.
+        destruct l as [|b t]; [cbn in Efull; lia|].
+        rewrite (hyb_rel_victim st b t HR). cbn [evict_lowest].
+        set (w := e_key (lowest A (score A aw dw (b :: t)) b t)).
+        apply (hyb_rel_upsert (mkHyb (adel w (h_dict st)) (adel w (h_cnt st)) (adel w (h_dur st)))
+                              (e_without A w (b :: t)) (mkEntry k v 1 d)).
+        unfold hyb_rel; cbn [h_dict h_cnt h_dur]. rewrite Ed, Ec, Eu, !adel_proj by auto.
+        repeat split; auto. rewrite keys_e_without. now apply NoDup_filter.
+      + cbn [fst snd]. split; auto. apply (hyb_rel_upsert st l (mkEntry k v 1 d) HR).
+    - (* get *)
+      unfold hyb_get. unfold amem. rewrite Ed, aget_proj.
+      destruct (e_find A k l) as [r|] eqn:Ef; cbn [option_map negb].
+      + destruct (e_find_key _ _ _ Ef) as [Ek Hin]. rewrite Ec, aget_proj, Ef. cbn [option_map].
+        cbn [option_map fst snd]. split; auto.
+        assert (Ef' : e_find A (e_key (mkEntry k (e_val r) (e_cnt r + 1) (e_dur r))) l = Some r) by (cbn; exact Ef).
+        pose proof (proj_upsert_same e_val _ r l Ef' eq_refl) as PV.
+        pose proof (proj_upsert_same e_dur _ r l Ef' eq_refl) as PD.
+        pose proof (aset_proj e_cnt (mkEntry k (e_val r) (e_cnt r + 1) (e_dur r)) l) as PC.
+        cbn [e_key e_cnt] in PC.
+        unfold hyb_rel; cbn [h_dict h_cnt h_dur]. rewrite PV, PD. split; [reflexivity|].
+        split; [exact PC|]. split; [exact Eu|].
+        rewrite <- (keys_proj e_val), PV, keys_proj. exact ND.
+      + cbn [fst snd]. split; auto.
+    - (* in *)
+      unfold amem. rewrite Ed, aget_proj. destruct (e_find A k l); cbn; split; auto.
+    - rewrite LEN. split; auto.
+    - split; auto. unfold hyb_rel; cbn.
+      split; [reflexivity|split; [reflexivity|split; [reflexivity|constructor]]].
+  Qed.
+
+  (* hybrid_refines: on every operation sequence the three-dict code produces exactly the outputs of ONE
+     list of entries (key, value, count, duration) where a put into a full cache first drops the first entry
+     with the lowest score  aw * count/sum(counts) + dw * duration/sum(durations) *)
+  Theorem hyb_refines : forall ops, run_ops hstep hyb_empty ops = run_ops sstep [] ops.
+  Proof.
+    intros ops. apply refines_rel with (R := fun st l => hyb_inv A mx st /\ hyb_rel st l).
+    - intros st l o [Hinv HR]. destruct (hyb_step_refines st l o Hinv HR) as [H1 H2].
+      split; auto. split; auto. now apply hyb_step_ok.
+    - split; [apply hyb_inv_empty; exact Hmx|]. unfold hyb_rel; cbn.
+      split; [reflexivity|split; [reflexivity|split; [reflexivity|constructor]]].
+  Qed.
+End HybridRefines.
